@@ -210,8 +210,8 @@ Section GoLemmas.
           { destruct (isabs (parse tgt)); [constructor|assumption]. }
           assert (Hi : inv_cur (if isabs (parse tgt) then [] else cur)).
           { destruct (isabs (parse tgt)); [|assumption].
-            intros x Hx. simpl in Hx. inversion Hx; subst.
-            pose proof (get_dir_root_dir _ _ _ _ Ecur) as Hd. destruct x; try contradiction. exact I. }
+            intros x Hx. simpl in Hx. inversion Hx as [Hfx].
+            pose proof (get_dir_root_dir _ _ _ _ Ecur) as Hd. rewrite Hfx in Hd. destruct x; try contradiction. exact I. }
           destruct (Hrec _ _ _ _ Hs (Hparse tgt) Hi E) as [Hp' [Hg' Hn']].
           apply (IH cur'); try assumption.
           intros x Hx. rewrite Hg' in Hx. inversion Hx; subst. exact Hn'.
